@@ -6,11 +6,12 @@
    Statement (properties.jsonl): ready /\ activation methods /\ whitespace-separated rule texts => process() completes;
    and every needed-but-missing conjunction, disjunction, implication, aggregation operator or defuzzifier is reported.
 
-   THE CODE AS WRITTEN DOES NOT SATISFY IT (finding F9): the missing-disjunction check of is_ready is nested inside the
-   missing-conjunction branch.  `is_ready` follows Ready.disjunction_check_nested (true = the code as written, the pinned
-   commit; false = after the fix that dedents the check): the `_current` theorems state, for the check that mirrors the code
-   now in /repo, the refutation while the switch is `true` and the full statement once it is `false`.
-   The theorems about `is_ready_as_written` and `is_ready_fixed` do not depend on the switch.
+   History (finding F9): at the pinned commit the missing-disjunction check of is_ready was nested inside the
+   missing-conjunction branch and both statements were FALSE (`or` rules, disjunction operator absent, conjunction present
+   or not needed: reported ready, then ValueError).  /repo now carries the fix (check dedented); `is_ready` follows
+   Ready.disjunction_check_nested (= false: the repaired code) and the FULL statements below are about it.  The refutations
+   for the check as written are kept as lemmas about `is_ready_as_written` in Proofs/ReadyProofs.v
+   (ready_process_ok_refuted, ready_process_ok_witness, missing_reported_refuted, w2_ready_and_raises).
    Only imports and final statements; the proofs are in Proofs/ReadyProofs.v. *)
 From Coq Require Import Bool List String.
 From VF Require Import GenTerm Core Ready ReadyProofs.
@@ -18,41 +19,23 @@ Import ListNotations.
 
 (* ======================================================= (A) ready => process() completes *)
 
-(* the full statement is `ready_process_ok_statement rdy`:
-     forall T term_err trig (e : engine T) tx,
-       rdy T e tx = [] -> has_activation e -> ws_tokens e tx -> wf_terms term_err e -> process_raises term_err trig e = None *)
+(* A1. the FULL statement, for the readiness check of the code in /repo *)
+Theorem C19_ready_process_ok :
+  forall (T : Type) (term_err : term T -> bool -> option err) (trig : nat -> list nat) (e : engine T) (tx : texts),
+    is_ready e tx = [] -> has_activation e -> ws_tokens e tx -> wf_terms term_err e ->
+    process_raises term_err trig e = None.
+Proof. exact ready_process_ok. Qed.
+Print Assumptions C19_ready_process_ok.
 
-(* A1. for the code in /repo: refuted as long as the disjunction check is nested, proved as soon as it is not *)
+(* A2. the same, through the switch: were the disjunction check still nested, this would be the refutation *)
 Theorem C19_ready_process_ok_current :
   if disjunction_check_nested then ~ ready_process_ok_statement (@is_ready)
   else ready_process_ok_statement (@is_ready).
 Proof. exact ready_process_ok_current. Qed.
 Print Assumptions C19_ready_process_ok_current.
 
-(* A2. the refutation, with its witness: ONE rule block (conjunction PRESENT, disjunction absent), ONE rule
-       `if a is lo or a is hi then o is x`; the check as written reports nothing, every hypothesis holds, process() raises
-       ValueError; the operator is needed and absent, and the repaired check reports exactly it *)
-Theorem C19_ready_process_ok_refuted :
-  exists (e : engine unit) (tx : texts),
-    is_ready_as_written e tx = [] /\ has_activation e /\ ws_tokens e tx /\ wf_terms no_term_err e /\
-    process_raises no_term_err no_trig e = Some EValue /\
-    needs OpDisjunction 0 e /\ absent OpDisjunction 0 e /\
-    is_ready_fixed e tx = [MMissing OpDisjunction 0 1].
-Proof. exact ready_process_ok_witness. Qed.
-Print Assumptions C19_ready_process_ok_refuted.
-
-Theorem C19_ready_process_ok_as_written_false : ~ ready_process_ok_statement (@is_ready_as_written).
-Proof. exact ready_process_ok_refuted. Qed.
-Print Assumptions C19_ready_process_ok_as_written_false.
-
-(* the hole does not need the conjunction to be present: both absent, rules using only `or` *)
-Theorem C19_hole_with_both_absent :
-  is_ready_as_written w_engine2 w_texts = [] /\ process_raises no_term_err no_trig w_engine2 = Some EValue.
-Proof. exact w2_ready_and_raises. Qed.
-Print Assumptions C19_hole_with_both_absent.
-
-(* A3. what IS true of the current check (whichever way the switch stands): the statement holds under the extra hypothesis
-       that no enabled block lacking a disjunction operator has a loaded rule that uses `or` … *)
+(* A3. robust to the switch (true of the check as written too): the statement under the extra hypothesis that no enabled
+       block lacking a disjunction operator has a loaded rule that uses `or` … *)
 Theorem C19_ready_process_ok_partial :
   forall (T : Type) (term_err : term T -> bool -> option err) (trig : nat -> list nat) (e : engine T) (tx : texts),
     is_ready e tx = [] -> has_activation e -> ws_tokens e tx -> wf_terms term_err e ->
@@ -60,7 +43,8 @@ Theorem C19_ready_process_ok_partial :
 Proof. exact ready_process_ok_partial. Qed.
 Print Assumptions C19_ready_process_ok_partial.
 
-(* … and that hypothesis is exactly what is missing: a ready engine completes if and only if it has no such block *)
+(* … which is exactly what the nested check failed to establish: a ready engine completes iff it has no such block
+   (for the repaired check both sides are simply true) *)
 Theorem C19_ready_process_iff_no_hole :
   forall (T : Type) (term_err : term T -> bool -> option err) (trig : nat -> list nat) (e : engine T) (tx : texts),
     is_ready e tx = [] -> has_activation e -> ws_tokens e tx -> wf_terms term_err e ->
@@ -68,7 +52,7 @@ Theorem C19_ready_process_iff_no_hole :
 Proof. exact ready_process_iff_no_hole. Qed.
 Print Assumptions C19_ready_process_iff_no_hole.
 
-(* A4. the repaired check (disjunction test dedented) satisfies the full statement *)
+(* A4. stated on the repaired check by name (independent of the switch) *)
 Theorem C19_ready_fixed_process_ok :
   forall (T : Type) (term_err : term T -> bool -> option err) (trig : nat -> list nat) (e : engine T) (tx : texts),
     is_ready_fixed e tx = [] -> has_activation e -> ws_tokens e tx -> wf_terms term_err e ->
@@ -81,35 +65,22 @@ Print Assumptions C19_ready_fixed_process_ok.
 (* the full statement, per operator kind, is `missing_reported_statement rdy op`:
      forall T (e : engine T) tx idx, ws_tokens e tx -> needs op idx e -> absent op idx e -> exists n, In (MMissing op idx n) (rdy T e tx) *)
 
-(* B1. conjunction, implication (per rule block), aggregation, defuzzifier (per output variable): reported by the current check *)
-Theorem C19_missing_reported_partial :
-  forall (op : opkind), op <> OpDisjunction ->
-  forall (T : Type) (e : engine T) (tx : texts) (idx : nat),
+(* B1. the FULL statement, all five kinds — conjunction, disjunction, implication (per rule block), aggregation,
+       defuzzifier (per output variable) — for the readiness check of the code in /repo *)
+Theorem C19_missing_reported :
+  forall (op : opkind) (T : Type) (e : engine T) (tx : texts) (idx : nat),
     ws_tokens e tx -> needs op idx e -> absent op idx e -> exists n, In (MMissing op idx n) (is_ready e tx).
-Proof. exact missing_reported_partial. Qed.
-Print Assumptions C19_missing_reported_partial.
+Proof. exact missing_reported. Qed.
+Print Assumptions C19_missing_reported.
 
-(* B2. the disjunction, for the code in /repo: refuted while the check is nested, proved once it is not *)
+(* B2. the disjunction through the switch: were the check still nested, this would be the refutation *)
 Theorem C19_missing_disjunction_reported_current :
   if disjunction_check_nested then ~ missing_reported_statement (@is_ready) OpDisjunction
   else missing_reported_statement (@is_ready) OpDisjunction.
 Proof. exact missing_disjunction_reported_current. Qed.
 Print Assumptions C19_missing_disjunction_reported_current.
 
-Theorem C19_missing_reported_refuted : ~ missing_reported_statement (@is_ready_as_written) OpDisjunction.
-Proof. exact missing_reported_refuted. Qed.
-Print Assumptions C19_missing_reported_refuted.
-
-(* the nested check does fire when the conjunction operator is needed and missing as well *)
-Theorem C19_missing_disjunction_as_written_if_conjunction :
-  forall (T : Type) (e : engine T) (tx : texts) (idx : nat) (b : block T),
-    ws_tokens e tx -> nth_error (e_blocks e) idx = Some b -> block_uses false b -> b_disjunction b = None ->
-    block_uses true b -> b_conjunction b = None ->
-    exists n, In (MMissing OpDisjunction idx n) (is_ready_as_written e tx).
-Proof. exact missing_disjunction_as_written_if_conjunction. Qed.
-Print Assumptions C19_missing_disjunction_as_written_if_conjunction.
-
-(* B3. the repaired check reports all five kinds *)
+(* B3. stated on the repaired check by name (independent of the switch) *)
 Theorem C19_missing_reported_fixed :
   forall (op : opkind) (T : Type) (e : engine T) (tx : texts) (idx : nat),
     ws_tokens e tx -> needs op idx e -> absent op idx e -> exists n, In (MMissing op idx n) (is_ready_fixed e tx).
@@ -142,7 +113,7 @@ Example C19_ready_hypotheses_inhabited :
 Proof. exact ready_hypotheses_inhabited. Qed.
 
 (* the same engine stripped of its operators satisfies the hypotheses of (B) for each of the five kinds; the repaired check
-   reports the six absences, the check as written misses the disjunction of block 1 (whose rule uses only `or`) *)
+   reports the six absences, the check as written (pinned commit) missed the disjunction of block 1 (whose rule uses only `or`) *)
 Example C19_missing_hypotheses_inhabited :
   ws_tokens g_engine_stripped g_texts /\
   (needs OpConjunction 0 g_engine_stripped /\ absent OpConjunction 0 g_engine_stripped) /\
@@ -159,6 +130,6 @@ Example C19_missing_hypotheses_inhabited :
      MMissing OpConjunction 0 1; MMissing OpDisjunction 0 1; MMissing OpImplication 0 1].
 Proof. exact missing_hypotheses_inhabited. Qed.
 
-(* the hole is inhabited too: the witness of A2 has one *)
+(* the hole hypothesis of A3 is not empty either: the F9 witness engine (ReadyProofs.w_engine) has one *)
 Example C19_hole_inhabited : disjunction_hole w_engine.
 Proof. exact w_hole. Qed.
